@@ -5,9 +5,13 @@ UNIT = dict(
     prelude=["ignorebuild_env.rs"],
     spec=["spec.rs"],
     rules=dict(
-        subst=[("Trie<String, Ignore>", "TrieS"), ("Trie::new()", "TrieS::new()"), ("PathBuf", "PathS")],
+        option_unfold=True,
+        subst=[("Trie<String, Ignore>", "TrieS"), ("Trie::new()", "TrieS::new()"), ("PathBuf", "PathS"), ("&Path", "&PathS")],
     ),
     extract=[
+        dict(id="ProjectType", kind="type", src="crates/project-origins/src/lib.rs", name="ProjectType", structural=True),
+        dict(id="IgnoreFile", kind="type", src="crates/ignore-files/src/lib.rs", name="IgnoreFile", structural=True, add_derive=["Copy"]),
+        dict(id="get_applies_in_path", kind="fn", src=F, name="get_applies_in_path", rules=dict(pre_subst=[("PathBuf::from(prefix(origin))", "vx_fs_root(origin)")])),
         dict(id="Ignore", kind="type", src=F, name="Ignore", add_derive=["Copy"]),
         dict(id="IgnoreFilter", kind="type", src=F, name="IgnoreFilter", drop_derive=["Clone"]),
         dict(id="IgnoreFilter::empty", kind="fn", src=F, impl="impl IgnoreFilter", name="empty"),
